@@ -6,7 +6,6 @@ import streams
 
 ID = "C15"
 LEVEL = "proof"
-NOT_CLAIMED = "in progress: model, correspondence and oracle search are running; the theorems of the lemma chain are being proved"
 MODEL_TARGETS = ["theories/Analysis.vo"]
 TRANSLATORS = ["semiring", "rules"]
 LEVEL_TEXT = ("Theorems in coq/props/C15.v about the result assembly of the Coq model of Analysis.func (which fields are present in which case, the choice "
